@@ -52,6 +52,7 @@ theorem doRegister_bal_other (c : Ctx) (s s' : St) (fr : Nat) (amt : Int) (flag 
     (s'.accts x).bal = (s.accts x).bal := by
   unfold doRegister at h
   simp only at h
+  split at h; · cases h
   split at h
   · split at h; · cases h
     split at h; · cases h
@@ -170,6 +171,7 @@ theorem body_income_other (c : Ctx) (s s' : St) (tx : Tx) (ib : Int) (h : body c
     simp only [hk] at h
     unfold doRegister at h
     simp only at h
+    split at h; · cases h
     split at h
     · split at h; · cases h
       split at h; · cases h
